@@ -81,7 +81,12 @@ def parse_annotations(path, crate, engine):
             ob["crate"] = crate
             ob["engine"] = engine
             ob["inject"] = ob.get("inject", "")
-            ob["harness"] = (kani_mod_path(crate, ob["inject"], mod) + "::" + m.group(1)) if engine == "kani" else m.group(1)
+            if ob.get("modpath"):
+                # explicit module path of the injection target (needed where `#[path]` attributes rename modules)
+                hn = ob["modpath"] + "::vk_" + mod + "::" + m.group(1)
+            else:
+                hn = kani_mod_path(crate, ob["inject"], mod) + "::" + m.group(1)
+            ob["harness"] = hn if engine == "kani" else m.group(1)
             ob["property"] = ob.get("property", "").split()
             ob["tier"] = ob.get("tier", "quick")
             ob["complete"] = ob.get("complete", "yes").lower() in ("yes", "true")
@@ -216,12 +221,27 @@ def inject(scratch, crates, files_by_crate, notes, pid):
             with open(tfile, "a") as fh:
                 fh.write(f"\n#[cfg(kani)]\n{allow}\n#[path = \"{os.path.join(dst, base)}\"]\npub(crate) mod {mod};\n")
             notes.append(f"harness module {mod} appended to {os.path.relpath(tfile, scratch)} of the scratch copy under cfg(kani)")
+    # the shims are copied into the scratch tree and given the version the tree's Cargo.lock pins (a [patch] with
+    # another version is silently ignored by cargo)
+    lock_txt = ""
+    lock = os.path.join(scratch, "Cargo.lock")
+    if os.path.exists(lock):
+        lock_txt = open(lock, encoding="utf-8").read()
+    shim_root = os.path.join(scratch, "_shims")
     cargo = os.path.join(scratch, "Cargo.toml")
     with open(cargo, "a") as fh:
         fh.write("\n[patch.crates-io]\n")
-        fh.write(f'generator = {{ path = "{VERIF}/kani/shims/generator" }}\n')
-        fh.write(f'parking_lot = {{ path = "{VERIF}/kani/shims/parking_lot" }}\n')
-    notes.append("[patch.crates-io] generator, parking_lot -> /verif/kani/shims (abstract stand-ins)")
+        for name in ("generator", "parking_lot"):
+            dst = os.path.join(shim_root, name)
+            shutil.copytree(os.path.join(VERIF, "kani", "shims", name), dst)
+            m = re.search(r'name = "%s"\nversion = "([^"]+)"\nsource = "registry' % name, lock_txt)
+            if m:
+                ct = os.path.join(dst, "Cargo.toml")
+                txt = open(ct).read()
+                txt = re.sub(r'(?m)^version = "[^"]+"', 'version = "%s"' % m.group(1), txt, count=1)
+                open(ct, "w").write(txt)
+            fh.write(f'{name} = {{ path = "{dst}" }}\n')
+    notes.append("[patch.crates-io] generator, parking_lot -> copies of /verif/kani/shims (abstract stand-ins)")
     inject_contract_attrs(scratch, notes, pid)
 
 
@@ -479,6 +499,34 @@ def build_verus_file(tmpl_path, scratch, out_path, notes):
     i = 0
     while i < len(lines):
         l = lines[i]
+        ms = re.match(r"^\s*//@@ SNIPPET\s+(.*)$", l)
+        if ms:
+            # `//@@ SNIPPET file=… fn=… until=<text>`: the statements of fn's body from its opening brace up to (not
+            # including) the first line that contains <text>, verbatim. What is dropped: the rest of the body.
+            head, _, until = ms.group(1).partition(" until=")
+            args = dict(kv.split("=", 1) for kv in head.split())
+            path = os.path.join(scratch, args["file"])
+            if not os.path.exists(path):
+                raise Undecided(f"lost anchor: {args['file']} missing")
+            got = extract_fn(open(path, encoding="utf-8").read(), args["fn"], args.get("impl"))
+            if not got:
+                raise Undecided(f"lost anchor: fn {args['fn']} not found in {args['file']}")
+            body_lines = got[1].split("\n")[1:]
+            taken = []
+            found = False
+            for bl in body_lines:
+                if until and until in bl:
+                    found = True
+                    break
+                taken.append(bl)
+            if not found:
+                raise Undecided(f"lost anchor: {until!r} not found in fn {args['fn']} ({args['file']})")
+            taken = [t for t in taken if not t.strip().startswith("//")]
+            out.append(f"    // ---- first {len(taken)} statement lines of {args['file']} fn {args['fn']}, verbatim (rest of the body dropped) ----")
+            out += taken
+            notes.append(f"verus: first {len(taken)} statement lines of fn {args['fn']} ({args['file']}) extracted verbatim up to {until!r}; the rest of the body is dropped")
+            i += 1
+            continue
         m = re.match(r"^\s*//@@ EXTRACT\s+(.*)$", l)
         if not m:
             out.append(l)
@@ -534,10 +582,14 @@ def run_verus(file_path, obs, scratch, tier, notes):
     cmd = ["verus", gen, "--output-json", "--time", "--multiple-errors", "20"]
     rc, out, dt = run_cmd(cmd, work, 900)
     js = None
-    try:
-        js = json.loads(out[out.index("{"):])
-    except Exception:
-        pass
+    jstart = None
+    for mm in re.finditer(r"(?m)^\{$", out):
+        jstart = mm.start()
+        try:
+            js = json.loads(out[jstart:])
+            break
+        except Exception:
+            js = None
     failed_fns = set()
     fn_line = {}
     src_lines = open(gen).read().split("\n")
@@ -547,7 +599,7 @@ def run_verus(file_path, obs, scratch, tier, notes):
                                                        "tail": "\n".join(out.splitlines()[-30:])}, dt)
         return results
     vr = js["verification-results"]
-    stderr_txt = out[: out.index("{")] if "{" in out else out
+    stderr_txt = out[:jstart] if jstart is not None else out
     # map error line numbers to enclosing fn
     err_lines = [int(x) for x in re.findall(re.escape(os.path.basename(gen)) + r":(\d+):\d+", stderr_txt)]
     fn_starts = []
